@@ -65,6 +65,13 @@ let handle (line:string) : string =
       let (r, p) = contains_obj { c_bbox_overlap = a; c_convex = b; c_bb_corners_in = c; c_vertices_in = d;
         c_have_obj_point = e; c_obj_point_in = f; c_ball_fits = g; c_have_reg_point = h; c_too_far = i; c_diff_empty = j } in
       b2s r ^ " " ^ cpass_name p
+  | "ZAP" -> let za = next_q () in let ha = next_q () in let zb = next_q () in let hb = next_q () in
+             b2s (z_apart_num za ha zb hb)
+  | "SLAB" -> (* history of approxBoundFootprint requests (centre, height) on one region: the slabs handed out *)
+      let n = next_int () in
+      let reqs = times n (fun () -> let c = next_q () in let h = next_q () in (c, h)) in
+      let q2s (x:q) = let r = qred x in string_of_z r.qnum ^ "/" ^ string_of_z (Zpos r.qden) in
+      String.concat " " (List.map (fun s -> q2s s.s_c ^ ":" ^ q2s s.s_h) (run_requests approx None reqs))
   | "FOOT" -> let a = next_bool () in let b = next_bool () in let c = next_bool () in
               b2s (contains_footprint { f_convex = a; f_poly_in = b; f_hull_in = c })
   | s -> failwith ("command " ^ s)
